@@ -300,6 +300,39 @@ def extra_gen(repo, gen_dir, metas):
                   "values": sizes})
 
 
+# ---- setters: the validity flag of the lazily built tables (contracts/c01s.h) ----
+HARNESS_S = os.path.join(VERIF, "harness", "c01s.c")
+_FLAG = (r"(?<![\w>.])(?:this->)?ring_diff_arrays_computed\b", "self->ring_diff_arrays_computed", (1, 4))
+_TF = [(r"\bfalse\b", "0", (0, 4)), (r"\btrue\b", "1", (0, 4))]
+_SEGV = (r"(?<![\w>.])(?:this->)?(min|max)_ring_diff\[segment_num\]", r"SEGW(self, \1_ring_diff, K_segidx(self, segment_num) + self->min_seg)", (0, 4))
+
+
+def _setter(name, sig, header, rules):
+    return dict(name="K_" + name, file=CYL_CXX, cxx_name="ProjDataInfoCylindrical::" + name, func=r"ProjDataInfoCylindrical::" + name + sig, c_header=header, loops=0, rules=rules + _TF)
+
+
+KERNELS_S = [
+    _setter("set_min_ring_difference", r"\(int min_ring_diff_v, int segment_num\)", "void K_set_min_ring_difference(struct PDIS* self, int min_ring_diff_v, int segment_num)",
+            [(r"(?<![\w>.])(?:this->)?min_ring_diff\[segment_num\] = min_ring_diff_v;", "K_GEOM_ASSIGN(self->min_ring_diff[K_segidx(self, segment_num)], min_ring_diff_v);", 1), _SEGV, _FLAG]),
+    _setter("set_max_ring_difference", r"\(int max_ring_diff_v, int segment_num\)", "void K_set_max_ring_difference(struct PDIS* self, int max_ring_diff_v, int segment_num)",
+            [(r"(?<![\w>.])(?:this->)?max_ring_diff\[segment_num\] = max_ring_diff_v;", "K_GEOM_ASSIGN(self->max_ring_diff[K_segidx(self, segment_num)], max_ring_diff_v);", 1), _SEGV, _FLAG]),
+    _setter("set_ring_spacing", r"\(float ring_spacing_v\)", "void K_set_ring_spacing(struct PDIS* self, float ring_spacing_v)",
+            [(r"(?<![\w>.])(?:this->)?ring_spacing = ring_spacing_v;", "K_GEOM_ASSIGN(self->ring_spacing, ring_spacing_v);", 1),
+             (r"(?<![\w>.])(?:this->)?ring_spacing\b(?!_v)", "self->ring_spacing", (0, 3)), _FLAG]),
+    _setter("set_num_axial_poss_per_segment", r"\(const VectorWithOffset<int>& num_axial_poss_per_segment\)", "void K_set_num_axial_poss_per_segment(struct PDIS* self)",
+            [(r"ProjDataInfo::set_num_axial_poss_per_segment\(num_axial_poss_per_segment\);", "K_base_geom_change(self);", 1), _FLAG]),
+    _setter("set_min_axial_pos_num", r"\(const int min_ax_pos_num, const int segment_num\)", "void K_set_min_axial_pos_num(struct PDIS* self, const int min_ax_pos_num, const int segment_num)",
+            [(r"ProjDataInfo::set_min_axial_pos_num\(min_ax_pos_num, segment_num\);", "K_base_set_min_axial_pos_num(self, min_ax_pos_num, segment_num);", 1), _FLAG]),
+    _setter("set_max_axial_pos_num", r"\(const int max_ax_pos_num, const int segment_num\)", "void K_set_max_axial_pos_num(struct PDIS* self, const int max_ax_pos_num, const int segment_num)",
+            [(r"ProjDataInfo::set_max_axial_pos_num\(max_ax_pos_num, segment_num\);", "K_base_set_max_axial_pos_num(self, max_ax_pos_num, segment_num);", 1), _FLAG]),
+    _setter("reduce_segment_range", r"\(const int min_segment_num, const int max_segment_num\)", "void K_reduce_segment_range(struct PDIS* self, const int min_segment_num, const int max_segment_num)",
+            [(r"ProjDataInfo::reduce_segment_range\(min_segment_num, max_segment_num\);", "K_base_geom_change(self);", 1),
+             # re-indexing of the two ring-difference vectors to the new segment range: one opaque geometry change (the vectors' contents are not modelled here)
+             (r"VectorWithOffset<int> new_min_ring_diff\(min_segment_num, max_segment_num\);.*?this->max_ring_diff = new_max_ring_diff;", "K_base_geom_change(self);", 1), _FLAG]),
+]
+KERNELS += KERNELS_S
+
+
 def ring_sizes(tier):
     sc = _SIZES.get("scanner", [])
     if tier == "thorough":
@@ -376,6 +409,12 @@ def jobs(tier, gen_dir):
         enforce("K_get_bin_for_det_pos_pair", "/N=16/F=%d" % F, lc=False, repl=["K_get_bin_for_det_pair"], defines={"C01_N": 16, "C01_F": F},
                 params={"num_detectors_per_ring": 16, "tof_mash_factor": F}, backend=os.environ.get("C01_FB", "sat"))
     enforce("K_pdic_ctor_swap")
+    # setters keep "flag raised ==> tables built from the current values"
+    for k in KERNELS_S:
+        out.append(Job("c01/" + k["name"], HARNESS_S, "h_" + k["name"], enforce=k["name"], kernels=[k["name"]], flags=CHK, no_base_flags=True, timeout=120, min_obligations=3,
+                       backend="sat" if "spacing" in k["name"] else "kissat", replay="setters"))
+    out.append(Job("c01/canary/K_set_min_ring_difference", HARNESS_S, "h_K_set_min_ring_difference", enforce="K_set_min_ring_difference", kernels=["K_set_min_ring_difference"], kind="canary",
+                   defines={"CANARY_SETTERS": None}, expect_fail=r"K_set_min_ring_difference\.postcondition", no_base_flags=True, timeout=120))
     enforce("K_rda_check")
     enforce("K_rda_fill_rd2seg", repl=["K_min_rd", "K_max_rd"])
     out.append(Job("c01/lemma_rd2seg", HARNESS, "h_lemma_rd2seg", kind="lemma", kernels=["K_rda_fill_rd2seg"], replace=["K_rda_fill_rd2seg"], flags=CHK, no_base_flags=True,
@@ -421,7 +460,10 @@ def replay(job, o, workroot, repo):
     name = job.name
     N = job.params.get("num_detectors_per_ring")
     cands = []
-    if "det_pos_pairs_for_bin" in name:
+    if re.search(r"K_set_|K_reduce_segment_range", name):
+        for c in ((16, 3, 7), (16, 5, 15), (24, 3, 11), (8, 1, 7)):
+            cands.append(["setters"] + list(c))
+    elif "det_pos_pairs_for_bin" in name:
         F = job.params.get("tof_mash_factor", 1)
         M = job.params.get("view_mashing", 1)
         for c in ((0, 1, F), (0, M, F), (16, M, 0), (16, 1, 0), (24, 3, 0), (0, 1, 3), (0, 2, 2)):
